@@ -13,8 +13,10 @@ open Lean CweModel.Proto CweModel.IR
 
 namespace CweModel.C18
 
+/-- a violation of the full statement at one call site. Sites whose constant computation overflows as a
+signed operation keep the class of the (fixed) finding `signed-overflow-top-*`, so that a regression of
+the repair of `Interval::add/sub/signed_mul/int_2_comp` is recognisable. -/
 structure Fail where
-  known : Bool          -- the signed-overflow class
   text : String
 
 def linesFor (ls : List String) (tid : String) : List String :=
@@ -43,7 +45,7 @@ structure Acc where
   constrained : Nat := 0
   ovf : Nat := 0
 
-def spec560Site (proj : Project) (seed : Nat) (impl model : List String) (acc : Acc)
+def spec560Site (proj : Project) (seed : Nat) (impl _model : List String) (acc : Acc)
     (site : Term Sub × Term Blk × Term Jmp × ExternSymbol) : Acc :=
   let (_, blk, j, sym) := site
   match sym.parameters with
@@ -66,17 +68,15 @@ def spec560Site (proj : Project) (seed : Nat) (impl model : List String) (acc : 
           let acc := { acc with constrained := acc.constrained + 1, ovf := acc.ovf + (if strictSame then 0 else 1) }
           if expected == got && argOk then acc
           else
-            let sameAsModel := linesFor impl j.tid.id == linesFor model j.tid.id
-            let known := !strictSame && sameAsModel
             let cls :=
-              if known then "signed-overflow-top-560"
+              if !strictSame && expected && !got then "signed-overflow-top-560"
               else if !argOk then "umask-arg"
               else if expected then "umask-missed" else "umask-false-warning"
-            { acc with fails := acc.fails ++ [⟨known,
+            { acc with fails := acc.fails ++ [⟨
                 s!"spec class={cls} expected={if expected then "warn" else "nowarn"}:{fmtOct kc.toNat} impl={linesFor impl j.tid.id} site={j.tid.id}"⟩] }
   | _ => acc
 
-def spec467Site (proj : Project) (seed : Nat) (impl model : List String) (acc : Acc)
+def spec467Site (proj : Project) (seed : Nat) (impl _model : List String) (acc : Acc)
     (site : Term Sub × Term Blk × Term Jmp × ExternSymbol) : Acc :=
   let (_, blk, j, sym) := site
   let sp := proj.stackPointerRegister
@@ -107,10 +107,8 @@ def spec467Site (proj : Project) (seed : Nat) (impl model : List String) (acc : 
     let acc := { acc with constrained := acc.constrained + 1, ovf := acc.ovf + (if strictSame then 0 else 1) }
     if e == got then acc
     else
-      let sameAsModel := linesFor impl j.tid.id == linesFor model j.tid.id
-      let kn := !strictSame && sameAsModel
-      let cls := if kn then "signed-overflow-top-467" else if e then "ptrsize-missed" else "ptrsize-false-warning"
-      { acc with fails := acc.fails ++ [⟨kn,
+      let cls := if !strictSame && e then "signed-overflow-top-467" else if e then "ptrsize-missed" else "ptrsize-false-warning"
+      { acc with fails := acc.fails ++ [⟨
           s!"spec class={cls} expected={if e then "warn" else "nowarn"}:{known} impl={linesFor impl j.tid.id} site={j.tid.id}"⟩] }
 
 def strList (j : Json) : Except String (List String) := do
@@ -137,15 +135,12 @@ def handleE (line : String) : Except String String := do
   match acc.bad with
   | some b => return "bad " ++ b
   | none =>
-  match acc.fails.find? (!·.known) with
-  | some f => return f.text
-  | none =>
-  -- model ≡ implementation is required everywhere, also next to a known finding
-  if m560 != i560 then return s!"diff class=c560 model={m560} impl={i560}"
-  if m467 != i467 then return s!"diff class=c467 model={m467} impl={i467}"
   match acc.fails with
   | f :: _ => return f.text
   | [] =>
+  if m560 != i560 then return s!"diff class=c560 model={m560} impl={i560}"
+  if m467 != i467 then return s!"diff class=c467 model={m467} impl={i467}"
+  do
     let tags := (if acc.constrained > 0 then "constrained" else "modelonly")
       ++ (if i560.any (·.startsWith "W|") then " warn560" else "")
       ++ (if i560.any (·.startsWith "L|") then " log560" else "")
